@@ -65,10 +65,11 @@ type candOp struct {
 	node   bool // node witness present
 	alpha  bool // Alphabet witness present
 	other  bool // another node's witness present
+	major  bool // the committee majority n/2+1 signs (not the Alphabet 2n/3+1; differs for n >= 3)
 }
 
 func (op candOp) String() string {
-	return fmt.Sprintf("%s(key=%d,state=%d,marker=%d) node=%v alphabet=%v other=%v", op.method, op.key, op.state, op.marker, op.node, op.alpha, op.other)
+	return fmt.Sprintf("%s(key=%d,state=%d,marker=%d) node=%v alphabet=%v other=%v committee-majority=%v", op.method, op.key, op.state, op.marker, op.node, op.alpha, op.other, op.major)
 }
 
 // apply executes op against the contract and the model.
@@ -88,6 +89,12 @@ func (w *c07World) apply(op candOp) {
 	}
 	if op.alpha {
 		signers = append(signers, w.c.Alphabet)
+	}
+	if op.major {
+		if w.c.Committee.ScriptHash() == w.c.Alphabet.ScriptHash() {
+			panic(chainkit.HarnessError{Msg: "c07: the majority class needs a committee where it differs from the Alphabet"})
+		}
+		signers = append(signers, w.c.Committee)
 	}
 	wellFormed := op.key >= 0
 	var o *chainkit.Outcome
@@ -210,7 +217,7 @@ func orEmpty(a []string) []string {
 func TestC07Stateful(t *testing.T) {
 	theT = t
 	col := ev.New("C07", "stateful",
-		"rapid state machine over addPeer/addPeerIR/addNode/updateState/updateStateIR/deleteNode on a pool of 3 node keys plus a malformed key, state values {0,1,2,3,4,42,-1}, every subset of {node witness, Alphabet witness, another node's witness}; netmapCandidates/listCandidates and notifications compared with the two-list model after every step; non-trivial = a key was present in both lists at some point and was then updated or removed",
+		"rapid state machine over addPeer/addPeerIR/addNode/updateState/updateStateIR/deleteNode on a pool of 3 node keys plus a malformed key, state values {0,1,2,3,4,42,-1}, every subset of {node witness, Alphabet witness, another node's witness} and, on the 3-key committee, node + committee majority (n/2+1) in place of the Alphabet; netmapCandidates/listCandidates and notifications compared with the two-list model after every step; non-trivial = a key was present in both lists at some point and was then updated or removed",
 		"Offline/deleteNode of a key in neither list may HALT or FAULT (statement ambiguous) but must change nothing")
 	runRapid(t, col, func(rt *rapid.T, h *ev.History) {
 		n := rapid.SampledFrom([]int{1, 1, 3}).Draw(rt, "n")
@@ -235,6 +242,13 @@ func TestC07Stateful(t *testing.T) {
 				op.other, op.alpha = true, true
 			case 3:
 				op.other = true
+			case 4:
+				if n == 3 {
+					op.node, op.major = true, true
+					h.Mark("node-with-committee-majority-instead-of-alphabet")
+				} else {
+					op.node, op.alpha = true, true
+				}
 			default:
 				op.node, op.alpha = true, true
 			}
@@ -265,10 +279,10 @@ func TestC07Stateful(t *testing.T) {
 func TestC07Matrix(t *testing.T) {
 	theT = t
 	col := ev.New("C07", "matrix",
-		"complete enumeration for one key: 6 operations x 7 state values x membership {neither, legacy, structured, both} x 4 witness sets {node+Alphabet, node only, Alphabet only, other node+Alphabet}, each on a fresh contract",
+		"complete enumeration for one key: 6 operations x 7 state values x membership {neither, legacy, structured, both} x 5 witness sets {node+Alphabet, node only, Alphabet only, other node+Alphabet, node+committee majority on a 3-key committee}, each on a fresh contract",
 	)
 	defer func() { col.Flush(true) }()
-	wit := []struct{ node, alpha, other bool }{{true, true, false}, {true, false, false}, {false, true, false}, {false, true, true}}
+	wit := []struct{ node, alpha, other, major bool }{{true, true, false, false}, {true, false, false, false}, {false, true, false, false}, {false, true, true, false}, {true, false, false, true}}
 	for _, method := range []string{"addPeer", "addPeerIR", "addNode", "updateState", "updateStateIR", "deleteNode"} {
 		for _, st := range []int{0, 1, 2, 3, 4, 42, -1} {
 			if (method == "addPeer" || method == "addPeerIR" || method == "deleteNode") && st != 1 {
@@ -278,7 +292,11 @@ func TestC07Matrix(t *testing.T) {
 				for _, wt := range wit {
 					h := ev.NewHistory()
 					ok := runCase(t, col, h, func() {
-						w := &c07World{nmWorld: newNmWorld(1, h), m: newCandModel()}
+						nn := 1
+						if wt.major {
+							nn = 3
+						}
+						w := &c07World{nmWorld: newNmWorld(nn, h), m: newCandModel()}
 						defer w.close()
 						if member&1 != 0 {
 							w.apply(candOp{method: "addPeerIR", key: 0, state: 1, marker: 1, alpha: true})
@@ -291,7 +309,7 @@ func TestC07Matrix(t *testing.T) {
 							w.apply(candOp{method: "updateStateIR", key: 0, state: 3, alpha: true})
 							w.apply(candOp{method: "addNode", key: 0, state: 1, marker: 3, node: true, alpha: true})
 						}
-						w.apply(candOp{method: method, key: 0, state: st, marker: 5, node: wt.node, alpha: wt.alpha, other: wt.other})
+						w.apply(candOp{method: method, key: 0, state: st, marker: 5, node: wt.node, alpha: wt.alpha, other: wt.other, major: wt.major})
 						h.NonTrivial()
 					})
 					if !ok {
